@@ -7,6 +7,7 @@
 
 mod common;
 mod driver;
+mod findings;
 mod gen;
 mod minimise;
 mod outparse;
@@ -16,6 +17,7 @@ mod rng;
 mod world;
 mod props {
     pub mod c01;
+    pub mod c17;
 }
 
 use driver::{harness_error, Env};
@@ -44,6 +46,45 @@ fn main() {
         return;
     }
 
+    if cmd == "genstats" {
+        // development aid: which diagnostics do generated (unfaulted) projects draw?
+        let env = Env::from_env("quick");
+        let n: usize = args.get(2).and_then(|s| s.parse().ok()).unwrap_or(500);
+        let seed = env.seed;
+        let rows = env.par_map(n, |runner, i| {
+            let base = rng::Rng::new(seed).sub_n("genstats", i as u64);
+            let mut r = base.sub("p");
+            let k = gen::Knobs::random(&mut r);
+            let shape = gen::ProjectShape { max_files: 3, max_defs: 6, with_main: true, pragma_always: false };
+            let p = gen::gen_project(&mut r, &k, &shape);
+            let w = p.render(&mut base.sub("s"), &gen::Style::plain());
+            let case = common::make_case(&p, w, &common::Opts::base(), common::quiet_plan(&mut base.sub("k")));
+            let o = runner.run(&case).unwrap();
+            let out = outparse::parse_stdout(&o.stdout);
+            let mut v: Vec<String> = out.diags.iter().map(|d| format!("{} {} {}", d.severity, d.code.clone().unwrap_or_default(), findings::message_key(&d.message))).collect();
+            if common::crashed(&o) {
+                v.push(format!("CRASH {:?}", common::crash_signature(&o)));
+            }
+            if !out.unparsed.is_empty() {
+                v.push(format!("UNPARSED {:?}", out.unparsed.first()));
+            }
+            v
+        });
+        let mut tally: std::collections::BTreeMap<String, usize> = Default::default();
+        for r in rows {
+            for x in r {
+                *tally.entry(x).or_default() += 1;
+            }
+        }
+        let mut t: Vec<_> = tally.into_iter().collect();
+        t.sort_by(|a, b| b.1.cmp(&a.1));
+        for (k, v) in t {
+            println!("{v:6} {k}");
+        }
+        env.cleanup();
+        return;
+    }
+
     let env = Env::from_env(&tier);
     println!("VERIF_SEED={} tier={} workers={}", env.seed, env.tier, env.workers);
     let code = if let Some(path) = replay {
@@ -51,11 +92,13 @@ fn main() {
         let v: report::Violation = serde_json::from_str(&text).unwrap_or_else(|e| harness_error(&format!("replay file: {e}")));
         match cmd {
             "C01" => props::c01::replay(&env, &v.replay),
+            "C17" => props::c17::replay(&env, &v.replay),
             _ => harness_error(&format!("no replayer for {cmd}")),
         }
     } else {
         match cmd {
             "C01" => props::c01::run(&env),
+            "C17" => props::c17::run(&env),
             _ => harness_error(&format!("unknown command {cmd}")),
         }
     };
